@@ -389,8 +389,10 @@ func (w *inotify) readEvents() {
 				}
 			}
 
-			ev, ok := w.handleEvent(inEvent, &buf, offset)
-			if !ok {
+			// Any error is sent here rather than in handleEvent(), which holds
+			// the lock: a send blocks until it's read or the watcher is closed.
+			ev, err := w.handleEvent(inEvent, &buf, offset)
+			if !w.sendError(err) {
 				return
 			}
 			if !w.sendEvent(ev) {
@@ -403,9 +405,11 @@ func (w *inotify) readEvents() {
 	}
 }
 
-func (w *inotify) handleEvent(inEvent *unix.InotifyEvent, buf *[65536]byte, offset uint32) (Event, bool) {
+func (w *inotify) handleEvent(inEvent *unix.InotifyEvent, buf *[65536]byte, offset uint32) (Event, error) {
 	w.mu.Lock()
 	defer w.mu.Unlock()
+
+	var sendErr error // Returned to readEvents() so it's sent without holding the lock.
 
 	/// If the event happened to the watched directory or the watched file, the
 	/// kernel doesn't append the filename to the event, but we would like to
@@ -417,7 +421,7 @@ func (w *inotify) handleEvent(inEvent *unix.InotifyEvent, buf *[65536]byte, offs
 	/// state. Not much we can do about it, so just skip. See #616.
 	watch := w.watches.byWd(uint32(inEvent.Wd))
 	if watch == nil {
-		return Event{}, true
+		return Event{}, nil
 	}
 
 	var (
@@ -438,7 +442,7 @@ func (w *inotify) handleEvent(inEvent *unix.InotifyEvent, buf *[65536]byte, offs
 
 	if inEvent.Mask&unix.IN_IGNORED != 0 || inEvent.Mask&unix.IN_UNMOUNT != 0 {
 		w.watches.remove(watch)
-		return Event{}, true
+		return Event{}, nil
 	}
 
 	// inotify will automatically remove the watch on deletes; just need
@@ -451,14 +455,14 @@ func (w *inotify) handleEvent(inEvent *unix.InotifyEvent, buf *[65536]byte, offs
 	// IN_MOVE_SELF is sent and not IN_MOVED_{FROM,TO}. So remove the watch.
 	if inEvent.Mask&unix.IN_MOVE_SELF == unix.IN_MOVE_SELF {
 		if watch.recurse { // Do nothing
-			return Event{}, true
+			return Event{}, nil
 		}
 
+		// EINVAL means the kernel already removed the watch (e.g. the file
+		// was deleted right after the rename), which is not an error.
 		err := w.remove(watch.path)
-		if err != nil && !errors.Is(err, ErrNonExistentWatch) {
-			if !w.sendError(err) {
-				return Event{}, false
-			}
+		if err != nil && !errors.Is(err, ErrNonExistentWatch) && !errors.Is(err, unix.EINVAL) {
+			sendErr = err
 		}
 	}
 
@@ -467,7 +471,7 @@ func (w *inotify) handleEvent(inEvent *unix.InotifyEvent, buf *[65536]byte, offs
 	if inEvent.Mask&unix.IN_DELETE_SELF != 0 {
 		_, ok := w.watches.path[filepath.Dir(watch.path)]
 		if ok {
-			return Event{}, true
+			return Event{}, sendErr
 		}
 	}
 
@@ -478,8 +482,8 @@ func (w *inotify) handleEvent(inEvent *unix.InotifyEvent, buf *[65536]byte, offs
 		/// New directory created: set up watch on it.
 		if isDir && ev.Has(Create) {
 			err := w.register(ev.Name, watch.flags, true)
-			if !w.sendError(err) {
-				return Event{}, false
+			if err != nil {
+				sendErr = err
 			}
 
 			// This was a directory rename, so we need to update all the
@@ -504,7 +508,7 @@ func (w *inotify) handleEvent(inEvent *unix.InotifyEvent, buf *[65536]byte, offs
 		}
 	}
 
-	return ev, true
+	return ev, sendErr
 }
 
 func (w *inotify) isRecursive(path string) bool {
